@@ -18,6 +18,7 @@ func init() {
 			c.SignIffApproved("C01", map[string]bool{"SignBeaconAttestation": true, "SignBeaconAttestations": true})
 			c.SigningRootProvenance("C01")
 			c.StoreCommit("C03", s)
+			c.BadgerBufferDiscipline("C11")
 		},
 		Explanation: "Structural obligations whose conjunction implies that a stored attestation watermark (S,T) bounds every released attestation and that a new one is approved only if it neither double-votes nor surrounds/is surrounded: see DESIGN.md §5 C01.",
 		Trusted:     append([]string{"badger returns the last committed value for a key", "BLS signing"}, commonTrusted...),
